@@ -222,13 +222,17 @@ pub fn run(a: &Args) {
                     // abort the actor task once the log shows the first n callback entries (the task is then suspended)
                     for _ in 0..2000 {
                         let cnt = log.lock().unwrap().iter().filter(|l| l.starts_with("start:") || l.starts_with("end:")).count();
-                        if cnt >= n {
+                        if cnt >= n || a.opt_u128("abort_now").unwrap_or(0) == 1 {
                             break;
                         }
                         tokio::task::yield_now().await;
                     }
-                    for _ in 0..5 {
-                        tokio::task::yield_now().await;
+                    // (abort_now=1: the very first cancellation point - no await between the spawn returning and the abort, so on this current-thread
+                    // runtime the task has not been polled once)
+                    if a.opt_u128("abort_now").unwrap_or(0) == 0 {
+                        for _ in 0..5 {
+                            tokio::task::yield_now().await;
+                        }
                     }
                     handle.abort();
                     log.lock().unwrap().push("task_aborted".to_string());
